@@ -124,3 +124,69 @@ pub fn addressable(name: &str) -> bool {
     let mut it = TokenIterator::new(&s).peekable();
     matches!(parse_expr(&mut it), Expr::Unit { name: ref n } if n == name)
 }
+
+/// One reading of a name by the reference resolver.
+#[derive(Clone, Debug, PartialEq)]
+pub struct Reading {
+    pub value: Option<Rat>,
+    pub fvalue: f64,
+    pub dims: Dims,
+    pub how: &'static str,
+}
+
+impl Dump {
+    fn exact_reading(&self, name: &str, how: &'static str) -> Option<Reading> {
+        if self.base_units.contains(name) {
+            let mut d = Dims::new();
+            d.insert(name.to_string(), 1);
+            return Some(Reading { value: Some(rat(1, 1)), fvalue: 1.0, dims: d, how });
+        }
+        self.units.get(name).map(|u| Reading {
+            value: u.value.clone(),
+            fvalue: u.fvalue,
+            dims: u.dims.clone(),
+            how,
+        })
+    }
+
+    fn exact_or_prefixed(&self, name: &str) -> Vec<Reading> {
+        if let Some(r) = self.exact_reading(name, "exact") {
+            return vec![r];
+        }
+        let mut out = vec![];
+        for (p, pv) in &self.prefixes {
+            if let Some(rest) = name.strip_prefix(p.as_str()) {
+                if let Some(r) = self.exact_reading(rest, "prefix") {
+                    use num_traits::ToPrimitive;
+                    out.push(Reading {
+                        value: r.value.as_ref().map(|v| v * pv),
+                        fvalue: r.fvalue * pv.to_f64().unwrap_or(f64::NAN),
+                        dims: r.dims.clone(),
+                        how: "prefix",
+                    });
+                }
+            }
+        }
+        out
+    }
+
+    /// The statement's resolution order: exact, else prefix+unit (every valid split is a
+    /// candidate), else the same two steps on the name without a trailing `s`.
+    pub fn resolve(&self, name: &str) -> Vec<Reading> {
+        let r = self.exact_or_prefixed(name);
+        if !r.is_empty() {
+            return r;
+        }
+        if let Some(stem) = name.strip_suffix('s') {
+            return self
+                .exact_or_prefixed(stem)
+                .into_iter()
+                .map(|mut r| {
+                    r.how = if r.how == "exact" { "plural" } else { "plural+prefix" };
+                    r
+                })
+                .collect();
+        }
+        vec![]
+    }
+}
